@@ -502,6 +502,22 @@ def run(ctx):
     ctx.ob("R5.empty-value-refused", SDF, "Metadata.__setitem__", "len(value) == 0 -> raise",
            any(isinstance(st, ast.If) and has_code(st.test, "len(value) == 0") and any(isinstance(b, ast.Raise) for b in st.body)
                for st in stmts(si)), "a key without value cannot be read back", si.lineno, nontrivial=False)
+    # the two numeric key components are normalised to int independently: whether `registry_internal` is converted depends on
+    # `registry_internal` alone (a key without DT number still has a registry number that must equal the parsed one)
+    from .. import machine
+    pi = sd.func("Metadata.Key.__post_init__")
+    converted = []          # per way that leaves normally: the set of components it converts
+    for w in machine.ways(pi.body, set(), ("__setattr__",)):
+        if w.exit is None:
+            converted.append({fld_ for fld_ in ("number", "registry_internal") for u in w.updates
+                              if u.startswith(f"object.__setattr__(self, '{fld_}', int(")})
+    ctx.need(any("number" in c_ for c_ in converted) and any("registry_internal" in c_ for c_ in converted),
+             "the int() normalisation of number and registry_internal in Metadata.Key.__post_init__")
+    for fld_, other_ in (("number", "registry_internal"), ("registry_internal", "number")):
+        ctx.ob("R5.key-numbers-normalised-independently", SDF, "Metadata.Key.__post_init__", f"{fld_} -> int({fld_}) also where {other_} is not converted",
+               any(fld_ in c_ and other_ not in c_ for c_ in converted),
+               f"`{fld_}` is converted to int only on ways that convert `{other_}` as well (the one depends on the other being set): a key like "
+               "`> <NAME> 4711` keeps the string '4711' and no longer equals (or hashes like) the key that is parsed back from the file", pi.lineno)
     # key grammar: what serialize emits is what the component regexes accept
     ks = sd.func("Metadata.Key.serialize")
     # (a component may be read into a local first - `if (value := self.number) is not None:` - the placeholder then names the local)
